@@ -148,7 +148,10 @@ SortVariants == { [by |-> "row", stable |-> TRUE,  form |-> "cmp"], [by |-> "row
                   [by |-> "col", stable |-> TRUE,  form |-> "ord"],
                   \* "skey": a key function returning an owning key type (String) - same meaning as "key"
                   [by |-> "row", stable |-> TRUE,  form |-> "skey"], [by |-> "row", stable |-> FALSE, form |-> "skey"],
-                  [by |-> "col", stable |-> TRUE,  form |-> "skey"], [by |-> "col", stable |-> FALSE, form |-> "skey"] }
+                  [by |-> "col", stable |-> TRUE,  form |-> "skey"], [by |-> "col", stable |-> FALSE, form |-> "skey"],
+                  \* "bkey": a one-byte key type
+                  [by |-> "row", stable |-> TRUE,  form |-> "bkey"], [by |-> "row", stable |-> FALSE, form |-> "bkey"],
+                  [by |-> "col", stable |-> TRUE,  form |-> "bkey"], [by |-> "col", stable |-> FALSE, form |-> "bkey"] }
 SortBy == IF "sortrow" \in Groups /\ "sortcol" \in Groups THEN {"row", "col"}
           ELSE IF "sortrow" \in Groups THEN {"row"} ELSE IF "sortcol" \in Groups THEN {"col"} ELSE {}
 DoSort(v, line, rt) ==
